@@ -164,7 +164,10 @@ CLAIMED = {
         engine="io",
         text="Lean 4 over the model of _reaction_to_dict/_reaction_from_dict (required and optional keys, infinite bounds as text, both bounds set "
              "together): fromDict (toDict r) = r for every reaction with ordered bounds, saving is idempotent, and the repaired defect is exhibited "
-             "(old_loader_rejected_high_lower_bound). The model's dictionaries are compared with cobrapy's on generated reactions (lean --run); "
+             "(old_loader_rejected_high_lower_bound). The key scheme shared by reactions, metabolites, genes and the model (required keys always, an "
+             "optional key only when the attribute differs from its default, loading sets what it finds on a default object) is proved generically "
+             "(DictScheme.roundtrip, toDict_idempotent, for any tables without a repeated key) and instantiated with the key tables regenerated from "
+             "cobra/io/dict.py on every run (tables_have_no_repeated_key, listed_attributes_are_keys, scheme_roundtrip by decide / instantiation). The model's dictionaries are compared with cobrapy's on generated reactions (lean --run); "
              "generated rich models go through JSON (string, file, handle), YAML (string, file), dict, pickle, sort on/off, default and non-default "
              "Configuration().bounds, with full dumps, raw GLPK problem and optimum compared after one and two round trips.",
         note="Trusted: Lean kernel, standard axioms; json / ruamel.yaml / pickle and float<->text conversion are external (exercised on every generated "
